@@ -35,7 +35,7 @@ CHECKS.update({
                 note="trusts TLC and hex logging of contents; only the local dstore; contents of thousands of entries only in the thorough tier", technique="TLA+ spec (MCSnap.tla) + trace validation (TraceSnap.tla, TraceStore.tla) of real Save/Load/List"),
 })
 
-CHECKS["C12"] = dict(engine="plan", level=("model_checking", "TLC exhaustively checks that the reference resolution/plan of Plan.tla (transcribed from resolve.go and requestplan.go) satisfies the coverage predicates over a bounded configuration grid (MCPlan); the real BuildRequestDetails + ValidateRequestStartBlock + BuildTier1RequestPlan are run in tier1's order over an exhaustive grid, cursor shapes with every resolver answer, and seeded random configurations from the property's full ranges (about 5e5 records), and TracePlan.tla judges every observed (start, hand-off, gate, ranges, undo signal, error) with the same predicates.", "6/C12"),
+CHECKS["C12"] = dict(engine="plan", level=("model_checking", "TLC exhaustively checks that the reference resolution/plan of Plan.tla (transcribed from resolve.go and requestplan.go) satisfies the coverage predicates over a bounded configuration grid (MCPlan); the real BuildRequestDetails + ValidateRequestStartBlock + BuildTier1RequestPlan are run in tier1's order over an exhaustive grid, cursor shapes with every resolver answer, and seeded random configurations from the property's full ranges (about 5e5 records), and TracePlan.tla judges every observed (start, hand-off, gate, ranges, undo signal, error) with the same predicates. End to end: the client of a fork history (real bstream/forkable steps through the real tier1 pipeline) reconnects through the real tier1 entry point with the cursor of a message it received, orphaned or not; TraceSystem.tla recomputes the junction from the fork tree and requires the undo signal for it first, then exactly the canonical chain right after it.", "6/C12"),
     note="the literal product space (1e11) is sampled beyond the exhaustive sub-grid; stop <= start and irreversible-step cursors with block != LIB are outside the generated space; stub cursor resolver and final-block callbacks",
     technique="TLA+ spec (Plan.tla/MCPlan.tla) model-checked by TLC + trace validation (TracePlan.tla) of the real resolution and planning code")
 
@@ -65,7 +65,7 @@ CHECKS["C01"] = dict(engine="system", level=("model_checking", "End-to-end: gene
 CHECKS["C04"] = dict(engine="system", level=("model_checking", "End-to-end: generated module programs run through the REAL tier1 service (resolution, plan, scheduler, in-process tier2 jobs in a harness-controlled completion order, squasher, walker, linear pipeline, real files) and every observed response stream / final store map is judged by TraceSystem.tla against SeqExec of Exec.tla - one sequential execution of the whole module graph, with the hand-off taken from Plan.tla. Design level: the compositional lemmas are TLC-checked models (MCStore: merge = sequential; MCPlan: coverage of the range; Sched/C05: jobs start with complete inputs). Stream-shape predicates (range, order, no duplicate, no gap from the hand-off on, cursor = block) on every run; for resumption the request is re-issued from the cursor of delivered blocks and the resumed stream must be the suffix of the original.", "6/C04"), note=SYS_NOTE + "; resumption is checked from cursors of delivered (final) blocks", technique=SYS_TECH)
 CHECKS["C07"] = dict(engine="system", level=("model_checking", "End-to-end: generated module programs run through the REAL tier1 service (resolution, plan, scheduler, in-process tier2 jobs in a harness-controlled completion order, squasher, walker, linear pipeline, real files) and every observed response stream / final store map is judged by TraceSystem.tla against SeqExec of Exec.tla - one sequential execution of the whole module graph, with the hand-off taken from Plan.tla. Design level: the compositional lemmas are TLC-checked models (MCStore: merge = sequential; MCPlan: coverage of the range; Sched/C05: jobs start with complete inputs). After a complete run, the request is re-run on random, structured and per-module subsets of the files it left (plus *.tmp crash debris); outputs must equal SeqExec and the request must complete. Job level: TraceJob.tla states the contract of one tier2 job and the real job is run for every stage on EVERY subset of the cache files of its segment (exhaustive: 2^8 subsets x 3 stages x 2-4 program variants), the files left being compared with a clean run's.", "6/C07"), note=SYS_NOTE + "; request-level subsets are sampled (5 per scenario), job-level subsets are enumerated", technique=SYS_TECH)
 
-CHECKS["C03"] = dict(engine="system", level=("model_checking", "Fork histories (random fork trees, arrival orders and finality progress, including ping-pong histories that re-apply and re-undo the same blocks) are turned into steps by the REAL bstream/forkable and fed to the real tier1 pipeline on generated module programs; after every step the store map and sizes, and at the end the response stream, are judged by TraceSystem.tla: stores = SeqExec over the canonical chain rebuilt from the steps, the client model (keep data, drop above lastValidBlock on undo) converges on the canonical chain, undo signals designate held blocks, never two blocks at one height without an undo. Store level: TLC checks ReverseDeltas restores the pre-block content in MCStore and the undo events of the store chains are trace-validated. Design level: Pipeline.tla (gate, undo signalling, client) is explored by MCPipeline under every fork history over 7-8 heights x 3 branches; the message sequence it predicts from the steps of each real run is compared with the observed stream (drift).", "6/C03"),
+CHECKS["C03"] = dict(engine="system", level=("model_checking", "Fork histories (random fork trees, arrival orders and finality progress, including ping-pong histories that re-apply and re-undo the same blocks) are turned into steps by the REAL bstream/forkable and fed to the real tier1 pipeline on generated module programs; after every step the store map and sizes, and at the end the response stream, are judged by TraceSystem.tla: stores = SeqExec over the canonical chain rebuilt from the steps, the client model (keep data, drop above lastValidBlock on undo) converges on the canonical chain, undo signals designate held blocks, never two blocks at one height without an undo; the client then reconnects with the cursor of a message it received (orphaned or canonical block) and the client model continues over the resumed stream (undo signal for the junction, convergence). Store level: TLC checks ReverseDeltas restores the pre-block content in MCStore and the undo events of the store chains are trace-validated. Design level: Pipeline.tla (gate, undo signalling, client) is explored by MCPipeline under every fork history over 7-8 heights x 3 branches; the message sequence it predicts from the steps of each real run is compared with the observed stream (drift).", "6/C03"),
     note="bstream/forkable trusted as producer of steps; no fork directly on the initial LIB (harness artefact); open known finding D11 (start above a fork junction)",
     technique="TLA+ reference execution over the canonical chain + client model (TraceSystem.tla) validating real pipeline runs on forkable-generated histories")
 HOOK_COMMITS.append("9a781b5e")
@@ -81,6 +81,7 @@ HOOK_COMMITS.append("d1d8afab")
 HOOK_COMMITS.append("d2fc1936")
 HOOK_COMMITS.append("6afabbb7")
 HOOK_COMMITS.append("33191bfc")
+HOOK_COMMITS.append("84361e8f")
 
 NOT_YET = "machinery for this property is not built yet in this revision (work in progress; see DESIGN.md section 9 for the plan)"
 
